@@ -29,6 +29,23 @@ class _Obj(object):
     pass
 
 
+class _ProdState(object):
+    """what ComponentState.stageIn may look at on a producer: isAlive(), state, notifyFinished, specification"""
+
+    def __init__(self, drv, i, in_pm):
+        self._drv, self._i, self._in_pm = drv, i, in_pm
+
+    def isAlive(self):
+        return self._drv.alive[self._i]
+
+    @property
+    def state(self):
+        import experiment.model.codes as codes
+        if not self._drv.alive[self._i]:
+            return codes.FINISHED_STATE
+        return codes.POSTMORTEM_STATE if self._in_pm else codes.RUNNING_STATE
+
+
 class FakeTask(object):
     def __init__(self, drv, outcome):
         self.drv = drv
@@ -197,9 +214,11 @@ class Driver(object):
         self.subjects = [reactivex.subject.Subject() for _ in plist]
         self.prod_states = []
         for i in range(len(plist)):
-            ps = _Obj()
+            # a living producer is RUNNING or in POSTMORTEM (its task exited and the controller is about to restart
+            # it): either way the observer has to wait for it; a producer that is not alive is in a final state
+            in_pm = (i + int(cfg.get('retries') or 0) + int(cfg.get('t0') or 0) // 1000) % 2 == 0
+            ps = _ProdState(drv, i, in_pm)
             ps.notifyFinished = self.subjects[i]
-            ps.isAlive = (lambda i=i: drv.alive[i])
             ps.specification = types.SimpleNamespace(reference='stage0.prod%d' % i)
             self.prod_states.append(ps)
         real_notify = self.eng.notify_all_producers_finished
